@@ -168,6 +168,7 @@ func init() {
 			{Name: "prefixes", Run: prefixUnit("newick", false, 0)},
 			{Name: "edges", Run: edgeUnit("newick")},
 			{Name: "lexicon", TShards: 4, Run: lexiconUnit("newick")},
+			{Name: "mixedsizes", QShards: 4, TShards: 8, Run: mixedSizesUnit("newick")},
 			{Name: "fieldlens", TShards: 2, Run: lengthUnit("newick")},
 			{Name: "parallel", Race: true, Run: codecParallel("newick")},
 			{Name: "histories", Run: codecHistories("newick")},
